@@ -6,9 +6,13 @@ One line per module below.
 -/
 import TLX.Drv.PktNum
 import TLX.Drv.Suite
+import TLX.Drv.TcpOut
+import TLX.Drv.Csum
 
 def main (args : List String) : IO UInt32 := do
   match args with
   | ["pn"] => TLX.Drv.PktNum.main; return 0
   | ["suite"] => TLX.Drv.Suite.main; return 0
+  | ["tcpout"] => TLX.Drv.TcpOut.main; return 0
+  | ["csum"] => TLX.Drv.Csum.main; return 0
   | _ => IO.eprintln "usage: tlxdriver <module>"; return 2
